@@ -30,11 +30,12 @@
 (*   Dev_NoSecondChance     the strict tail is always evicted                  -> Eviction                                    *)
 (*   Dev_NoEviction         nothing is evicted                                 -> SizeBound                                   *)
 (*   Dev_SweepReapsLive     the sweeper's comparison is inverted               -> MissOk                                      *)
-(*   Dev_GetNoStamp         a hit does not refresh the recency stamp           -> Eviction                                    *)
+(*   Dev_GetNoStamp         a hit does not refresh the recency stamp           -> HitStamps                                   *)
+(*   Dev_RecentBoundary     an entry touched exactly sweepInterval ago is "old"-> Eviction                                    *)
 EXTENDS TtlMapOps, TLC, Json
 CONSTANTS Keys, Ttls, Advances, MaxEntries, DefaultTtl, SweepInterval, MaxOps, MaxTime,
           Dev_HitAtExpiry, Dev_RefreshKeepsExpiry, Dev_GetSlidesExpiry, Dev_NoMoveToFront, Dev_EvictFront, Dev_NoSecondChance,
-          Dev_NoEviction, Dev_SweepReapsLive, Dev_GetNoStamp
+          Dev_NoEviction, Dev_SweepReapsLive, Dev_GetNoStamp, Dev_RecentBoundary
 VARIABLES lru, now, nextSweep, st, truth, hist, last
 vars == <<lru, now, nextSweep, st, truth, hist, last>>
 \* truth (ghost, the Abs map of P1/P2): key -> [v, exp] of the last put still standing
@@ -48,6 +49,11 @@ Val == Len(hist) + 1
 H(r) == hist' = Append(hist, r)
 
 \* the code's put, with the slips
+ImplVictim(l2) ==
+    IF ~Dev_RecentBoundary THEN Victim(l2, now, SweepInterval)
+    ELSE LET n == Len(l2)
+             old == {i \in 1..n : i > n - KMaxHops /\ l2[i].la + SweepInterval <= now} IN
+         IF old = {} THEN n ELSE CHOOSE i \in old : \A j \in old : j <= i
 ImplPut(k, v, ttl) ==
     LET p == Pos(lru, k) IN
     IF MaxEntries = 0 THEN <<lru, 0>>
@@ -56,7 +62,7 @@ ImplPut(k, v, ttl) ==
          IF Dev_NoMoveToFront THEN << [lru EXCEPT ![p] = e], 0 >> ELSE << <<e>> \o RemoveAt(lru, p), 0 >>
     ELSE LET l2 == <<[k |-> k, v |-> v, exp |-> now + ttl, la |-> now]>> \o lru IN
          IF Len(l2) > MaxEntries /\ ~Dev_NoEviction
-         THEN LET vi == IF Dev_EvictFront THEN 1 ELSE IF Dev_NoSecondChance THEN Len(l2) ELSE Victim(l2, now, SweepInterval) IN
+         THEN LET vi == IF Dev_EvictFront THEN 1 ELSE IF Dev_NoSecondChance THEN Len(l2) ELSE ImplVictim(l2) IN
               << RemoveAt(l2, vi), l2[vi].k >>
          ELSE <<l2, 0>>
 Put(k, t) ==
